@@ -83,3 +83,35 @@ pub fn parse_offered_htlc_script(script: &ScriptBuf, anchors: bool) -> (r: Resul
 #[verifier::external_body]
 pub fn parse_revokeable_redeemscript(script: &ScriptBuf, anchors: bool) -> Result<(Vec<u8>, i64, Vec<u8>), ValidationError> { unimplemented!() }
 } // verus!
+verus! {
+// ---- closing transactions (LDK ClosingTransaction; TCB) ----
+pub uninterp spec fn closing_tx_spec(to_holder: u64, to_cp: u64, holder_script: ScriptBuf, cp_script: ScriptBuf, funding: OutPoint) -> ClosingTransaction;
+pub uninterp spec fn closing_built_tx(c: ClosingTransaction) -> Transaction;
+pub uninterp spec fn empty_script() -> ScriptBuf;
+#[verifier::external_body]
+pub struct TrustedClosingTransaction { _p: u8 }
+impl ClosingTransaction {
+    #[verifier::external_body]
+    pub fn new(to_holder: u64, to_cp: u64, holder_script: ScriptBuf, cp_script: ScriptBuf, funding: OutPoint) -> (r: ClosingTransaction)
+        ensures r == closing_tx_spec(to_holder, to_cp, holder_script, cp_script, funding)
+    { unimplemented!() }
+    #[verifier::external_body]
+    pub fn trust(&self) -> (r: TrustedClosingTransaction) ensures r.inner() == *self { unimplemented!() }
+}
+impl TrustedClosingTransaction {
+    pub uninterp spec fn inner(&self) -> ClosingTransaction;
+    #[verifier::external_body]
+    pub fn built_transaction(&self) -> (r: &Transaction) ensures *r == closing_built_tx(self.inner()) { unimplemented!() }
+}
+impl ScriptBuf {
+    #[verifier::external_body]
+    pub fn new() -> (r: ScriptBuf) ensures r == empty_script() { unimplemented!() }
+}
+pub open spec fn script_or_empty(o: Option<ScriptBuf>) -> ScriptBuf { match o { Some(s) => s, None => empty_script() } }
+// `opt.clone().unwrap_or_else(|| ScriptBuf::new())` (closure returning a default; R5 helper)
+#[verifier::external_body]
+pub fn vx_script_or_empty(o: Option<ScriptBuf>) -> (r: ScriptBuf) ensures r == script_or_empty(o) { unimplemented!() }
+pub uninterp spec fn spec_mutual_close_weight(tx: Transaction) -> usize;
+#[verifier::external_body]
+pub fn mutual_close_tx_weight(tx: &Transaction) -> (r: usize) ensures r == spec_mutual_close_weight(*tx), r > 0 { unimplemented!() }
+} // verus!
